@@ -66,6 +66,20 @@ def _tokens(prog, fn_key, e, depth=0, seen=frozenset()):
     out = set()
     e = deep(prog, fn_key, e)
     for x in subexprs(e):
+        if x[0] == "phi" and depth < 2 and fn_key in prog.fns:
+            # a value assembled on several paths (`let found = match it.find(..) { Some(..) => true, None => false }`): what its
+            # definitions were computed from, and the branches that chose between them
+            body_ = prog.fns[fn_key].body
+            for d in body_.defs().get(x[1], []):
+                if body_.blocks[d[1]]["cleanup"]:
+                    continue
+                if d[0] == "stmt" and d[3]["k"] == "=":
+                    out |= _tokens(prog, fn_key, body_.expr_of_rvalue(d[3]["rv"]), depth + 1, seen)
+                elif d[0] == "call":
+                    out |= _tokens(prog, fn_key, ("call", callee_path(d[2]), [body_.expr_of_operand(a) for a in d[2]["args"]], d[1]), depth + 1, seen)
+                for sb_ in body_.control_deps(d[1]):
+                    if depth < 1:
+                        out |= _tokens(prog, fn_key, body_.expr_of_operand(body_.term(sb_)["op"]), depth + 2, seen)
         if x[0] == "field" and x[3] and _known_adt(prog, x[3]):
             out.add("%s.%s" % (x[3], x[2]))
         elif x[0] == "call" and x[1] in prog.fns and prog.fns[x[1]].kind != "Closure":
@@ -73,6 +87,12 @@ def _tokens(prog, fn_key, e, depth=0, seen=frozenset()):
             out |= _fn_tokens(prog, x[1], depth, seen)
         elif x[0] == "discr" and x[2] and _known_adt(prog, x[2]):
             out.add("discr:" + x[2])
+        if x[0] == "call" and depth < 3:
+            # a predicate handed to an iterator adaptor (`.any(|k| ..)`, `.find(..)`): what the closure reads decides the guard
+            for a in x[2]:
+                a = strip(a) if isinstance(a, tuple) else a
+                if isinstance(a, tuple) and a[0] == "agg" and isinstance(a[1], str) and "{closure#" in a[1] and a[1] in prog.fns:
+                    out |= _fn_tokens(prog, a[1], depth + 1, seen)
     return out
 
 
@@ -90,6 +110,9 @@ def site_vocab(prog):
                 body = prog.fns[k].body
                 for (ge, pol, v, sb) in guard_atoms(body, b):
                     toks |= _tokens(prog, k, ge)
+                # ... and every branch the site is control dependent on (a bypass under a conjunction dominates nothing)
+                for sb2 in body.control_deps(b):
+                    toks |= _tokens(prog, k, body.expr_of_operand(body.term(sb2)["op"]))
                 f = prog.fns[k]
                 if f.kind != "Closure":
                     break
@@ -187,4 +210,303 @@ def G1(ctx, effects=None):
                     (fk, EFFECTS[lost[0]], lost[0].split("::")[-1]), prog.fns[fk].loc(), detail="%s:%s" % (EFFECTS[lost[0]], lost[0].split("::")[-1]))
         else:
             ctx.ok("G1", fk, "still performs on every path: %s" % ", ".join(sorted({EFFECTS[w] for w in want})), [prog.fns[fk].loc()])
+    G1r(ctx, effects)
     return n
+
+
+# ---------------------------------------------------------------------------------------------------------------------------
+# G1r - weak must: the place where an effect can happen is still reached on every path
+
+def reach_effects(prog, with_reached=False):
+    """{function: effect callees e such that e is *not* performed on every path, but every normal path reaches a block that may
+    perform e or the head of a loop containing such a block} - "the scan is always entered", which an early return in front
+    of the loop breaks."""
+    def m(prog_, i, b, t, c):
+        k = prog_.callee_key(c)
+        return [k] if k in EFFECTS else []
+    roots = [prog.ident(k) for k, f in prog.fns.items() if f.kind != "Closure" and not f.j.get("stub")]
+    roots = [r for r in roots if r is not None]
+    ea = EventAnalysis(prog, m).solve(roots)
+    out = {}
+    reached = {}
+    for r in roots:
+        key = prog.insts[r].key
+        body = prog.body_of(r)
+        ms = ea.must_of(r)
+        ms = set() if ms is TOP else set(ms)
+        may = set(ea.may.get(r, ())) - ms
+        if not may:
+            continue
+        dom = body.dominators()
+        rets = [b for b in range(body.n) if body.term(b)["k"] == "return" and b in dom]
+        if not rets:
+            continue
+        res = []
+        for e in sorted(may):
+            B = set(ea.sites_may(r, e))
+            if not B:
+                continue
+            cut = set(B)
+            for b in B:
+                back = body.reachable(b)
+                for h in dom.get(b, ()):
+                    if h != b and h in back and any(b in body.reachable(s_) for s_ in body.succs(h)):
+                        cut.add(h)
+            reach = body.reachable(0, blocked=cut) if 0 not in cut else set()
+            if not any(rb in reach for rb in rets):
+                reached.setdefault(key, []).append(e)
+                if cut != B:
+                    res.append(e)   # (no loop around the effect: plain conditional effects are G0's business)
+        if res:
+            out[key] = res
+    return (out, reached) if with_reached else out
+
+
+def G1r(ctx, effects=None):
+    """The loop (scan) in which an effect happens is still entered on every path of the function."""
+    prog = ctx.prog
+    from .. import normalize
+    ref = normalize.reference().get("reach_effects")
+    if ref is None:
+        ctx.missing("G1r", "reference", "lint/reference.json has no reach-effect table")
+        return
+    cur = getattr(prog, "_reach_effects", None)
+    if cur is None:
+        # whether the effect sits in a loop or was turned into an iterator chain (one call site) does not matter for the check
+        cur = prog._reach_effects = reach_effects(prog, with_reached=True)[1]
+    must = getattr(prog, "_must_effects", None)
+    if must is None:
+        must = prog._must_effects = must_effects(prog)
+    for fk, want in sorted(ref.items()):
+        if prog.fn(fk) is None:
+            continue
+        want = [w for w in want if effects is None or EFFECTS.get(w) in effects]
+        if not want:
+            continue
+        have = set(cur.get(fk, [])) | set(must.get(fk, []))
+        lost = [w for w in want if w not in have]
+        if lost:
+            ctx.bad("G1r", fk, "%s can now return without entering the loop in which it performs the %s step (%s): on the reference tree "
+                    "every normal path reached it" % (fk, EFFECTS[lost[0]], lost[0].split("::")[-1]), prog.fns[fk].loc(),
+                    detail="%s:%s" % (EFFECTS[lost[0]], lost[0].split("::")[-1]))
+        else:
+            ctx.ok("G1r", fk, "the loop performing %s is entered on every path" % ", ".join(sorted({EFFECTS[w] for w in want})), [prog.fns[fk].loc()])
+
+
+# ---------------------------------------------------------------------------------------------------------------------------
+# G2 - state writes: no write dropped from a path, no new condition on a write
+
+def _write_sites(prog):
+    """{(fn, "Adt.field" | "out:<type>"): [blocks]} - assignments to fields of (reference) loom types, and writes through a
+    `&mut [T]` / `&mut [T; N]` parameter (the out-parameter of a candidate search)."""
+    out = {}
+    for (adt, fld), ws in prog.writers().items():
+        if fld == "*" or not _known_adt(prog, adt):
+            continue
+        for w in ws:
+            if w["kind"] != "assign" or not w["exact"]:
+                continue
+            f = prog.fns[w["fn"]]
+            if f.j.get("stub"):
+                continue
+            out.setdefault((w["fn"], "%s.%s" % (adt, fld)), []).append(w["bb"])
+    for key, f in prog.fns.items():
+        if f.j.get("stub"):
+            continue
+        body = f.body
+        for b, blk in enumerate(body.blocks):
+            if blk["cleanup"]:
+                continue
+            for st in blk["stmts"]:
+                if st["k"] == "=" and len(st["lhs"]["p"]) == 2 and st["lhs"]["p"][0] == "*" and isinstance(st["lhs"]["p"][1], dict) and \
+                        "idx" in st["lhs"]["p"][1] and 1 <= st["lhs"]["l"] <= body.arg_count:
+                    ty = body.locals[st["lhs"]["l"]]["ty"]
+                    if ty.startswith("&mut ["):
+                        out.setdefault((key, "out:" + ty), []).append(b)
+    return out
+
+
+def write_tables(prog):
+    """(must_writes, write_vocab): per function the state fields assigned on every normal path (directly or through a local
+    callee that assigns them on every path), and per (function, field) the guard vocabulary of the assignments."""
+    sites = _write_sites(prog)
+    by_fn = {}
+    for (fk, what), bs in sites.items():
+        by_fn.setdefault(fk, {}).setdefault(what, set()).update(bs)
+    fns = [k for k, f in prog.fns.items() if f.kind != "Closure" and not f.j.get("stub") and prog.ident(k) is not None]
+    must = {k: set() for k in fns}
+
+    def solve(fk):
+        body = prog.fns[fk].body
+        inst = prog.ident(fk)
+        ev = {}
+        for what, bs in by_fn.get(fk, {}).items():
+            for b in bs:
+                ev.setdefault(b, set()).add(what)
+        for (b, t, c) in prog.sites(inst):
+            k = prog.callee_key(c)
+            if k in must and k != fk:
+                ev.setdefault(b, set()).update(must[k])
+        order = body.rpo(False)
+        preds = body.preds(False)
+        IN = {b: None for b in order}
+        OUT = {b: None for b in order}
+        IN[0] = frozenset()
+        changed = True
+        while changed:
+            changed = False
+            for b in order:
+                if b != 0:
+                    acc = None
+                    for p in preds[b]:
+                        if p in OUT and OUT[p] is not None:
+                            acc = OUT[p] if acc is None else (acc & OUT[p])
+                    if acc is None:
+                        continue
+                    IN[b] = acc
+                new = frozenset(IN[b] | ev.get(b, set()))
+                if new != OUT[b]:
+                    OUT[b] = new
+                    changed = True
+        res = None
+        for b in order:
+            if body.term(b)["k"] == "return" and OUT[b] is not None:
+                res = OUT[b] if res is None else (res & OUT[b])
+        return set(res or ())
+    for _ in range(6):
+        grew = False
+        for fk in fns:
+            r = solve(fk)
+            if r != must[fk]:
+                must[fk] = r
+                grew = True
+        if not grew:
+            break
+    vocab = {}
+    for (fk, what), bs in sites.items():
+        key = "%s=>%s" % (enclosing_fn(fk), what)
+        toks = vocab.setdefault(key, set())
+        body = prog.fns[fk].body
+        for b in bs:
+            for (ge, pol, v, sb) in guard_atoms(body, b):
+                toks |= _tokens(prog, fk, ge)
+            for sb2 in body.control_deps(b):
+                toks |= _tokens(prog, fk, body.expr_of_operand(body.term(sb2)["op"]))
+    nsites = {}
+    for (fk, what), bs in sites.items():
+        nsites.setdefault("%s=>%s" % (enclosing_fn(fk), what), []).extend((fk, b) for b in bs)
+    return ({k: sorted(v) for k, v in must.items() if v}, {k: sorted(v) for k, v in vocab.items()}, nsites)
+
+
+def _replaced_field(prog, tok):
+    """`Adt.field` where the field is new relative to the reference struct *and* the struct lost a reference field."""
+    from .. import normalize
+    ref = normalize.reference().get("adts") or {}
+    if "." not in tok or tok.startswith("discr:"):
+        return False
+    a, f = tok.rsplit(".", 1)
+    if a not in ref or a not in prog.adts:
+        return False
+    ref_fields = {x[0] for x in ref[a]}
+    cur_fields = {x["name"] for v in prog.adts[a]["variants"] for x in v["fields"]}
+    return f not in ref_fields and bool(ref_fields - cur_fields)
+
+
+def G2(ctx, scopes=None):
+    """State writes: a field (or out-parameter) a function assigned on every normal path on the reference tree is still assigned
+    on every path, and the conditions of the assignments mention no loom-local state they did not mention there."""
+    prog = ctx.prog
+    from .. import normalize
+    refm = normalize.reference().get("must_writes")
+    refv = normalize.reference().get("write_vocab")
+    if refm is None or refv is None:
+        ctx.missing("G2", "reference", "lint/reference.json has no write tables")
+        return
+    cur = getattr(prog, "_write_tables", None)
+    if cur is None:
+        cur = prog._write_tables = write_tables(prog)
+    must, vocab, sites_now = cur
+    refn = normalize.reference().get("write_sites") or {}
+
+    def in_scope(fk):
+        return scopes is None or any(fk.startswith(s_) for s_ in scopes)
+    for fk, want in sorted(refm.items()):
+        if not in_scope(fk) or prog.fn(fk) is None:
+            continue
+        lost = [w for w in want if w not in set(must.get(fk, []))]
+        # a field that no longer exists (representation change) is the other rules' business
+        lost = [w for w in lost if w.startswith("out:") or (w.rsplit(".", 1)[0] in prog.adts and
+                                                            any(f_["name"] == w.rsplit(".", 1)[1] for v_ in prog.adts[w.rsplit(".", 1)[0]]["variants"] for f_ in v_["fields"]))]
+        if lost:
+            ctx.bad("G2", fk, "%s no longer assigns `%s` on every path: on the reference tree every normal path did, so a path now leaves "
+                    "the old value in place" % (fk, lost[0]), prog.fns[fk].loc(), detail="must-write:%s" % lost[0])
+        else:
+            ctx.ok("G2", fk, "still assigns on every path: %s" % ", ".join(w.split("::")[-1] for w in want[:4]), [prog.fns[fk].loc()])
+    for key, toks in sorted(vocab.items()):
+        fk, what = key.split("=>")
+        if not in_scope(fk) or key not in refv:
+            continue
+        new = [t for t in toks if t not in set(refv[key])]
+        # a site that did not exist (same field assigned in one more place) brings its own conditions: the pairing / writer rules
+        # judge new writers, this rule only the conditions of the known ones
+        if len(set(sites_now.get(key, ()))) > refn.get(key, 0):
+            continue
+        # a field that replaced another one of its struct (representation change of private state) is not a new dependency
+        new = [t for t in new if not _replaced_field(prog, t)]
+        if new:
+            ctx.bad("G2", fk, "the assignment of `%s` in %s now also depends on `%s`, which none of its conditions mentioned on the "
+                    "reference tree: in these states the old value now stays in place" % (what, fk.split("::")[-1], new[0]),
+                    prog.fns[fk].loc() if fk in prog.fns else None, detail="write-guard:%s:%s" % (what, new[0]))
+
+
+# ---------------------------------------------------------------------------------------------------------------------------
+# G3 - no new effect: a function performs (directly or through callees) no kind of runtime step it could not perform on the
+# reference tree
+
+def may_effects(prog):
+    def m(prog_, i, b, t, c):
+        k = prog_.callee_key(c)
+        return [k] if k in EFFECTS else []
+    roots = [prog.ident(k) for k, f in prog.fns.items() if f.kind != "Closure" and not f.j.get("stub")]
+    roots = [r for r in roots if r is not None]
+    ea = EventAnalysis(prog, m).solve(roots)
+    return {prog.insts[r].key: sorted({EFFECTS[e] for e in ea.may.get(r, ())}) for r in roots}, ea
+
+
+def G3(ctx, scopes=None):
+    """No new effect: the kinds of runtime step (yield, block, wake, switch, synchronise, branch, ...) a function can perform,
+    directly or through its callees, are those it could perform on the reference tree."""
+    prog = ctx.prog
+    from .. import normalize
+    ref = normalize.reference().get("may_effects")
+    if ref is None:
+        ctx.missing("G3", "reference", "lint/reference.json has no may-effect table")
+        return
+    cur = getattr(prog, "_may_effects", None)
+    if cur is None:
+        cur = prog._may_effects = may_effects(prog)
+    may, ea = cur
+    for fk, have in sorted(may.items()):
+        if fk not in ref or prog.fn(fk) is None or (scopes is not None and not any(fk.startswith(s_) for s_ in scopes)):
+            continue
+        new = [e for e in have if e not in set(ref[fk])]
+        if not new:
+            continue
+        # blame the function that introduces it: skip when a callee that exists in the reference gained the effect itself
+        inst = prog.ident(fk)
+        for e in new:
+            own = False
+            for (b, t, c) in prog.sites(inst):
+                k = prog.callee_key(c)
+                if EFFECTS.get(k) == e:
+                    own = True
+                    continue
+                sm = {EFFECTS[x] for x in ea._site_may(inst, b, t)}
+                if e not in sm:
+                    continue
+                if k in ref and k in may and e not in set(ref[k]) and prog.fns.get(k) is not None and prog.fns[k].kind != "Closure":
+                    continue        # that callee is reported itself
+                own = True
+            if own:
+                ctx.bad("G3", fk, "%s can now perform a %s step, which it could not on the reference tree (neither directly nor through "
+                        "its callees)" % (fk, e), prog.fns[fk].loc(), detail="new-effect:%s" % e)
